@@ -524,6 +524,36 @@ add({"name": "gz_inflate_loop", "file": "dfs/img_gzfile.cc",
                (r"\bdo\b(\s*\{\s*stream\.next_out)", r"do GZ_INNER_CONTRACT\1", 1)],
      "dropped": ["static_asserts on buffer sizes"]})
 
+# ---- cmd_cat.cc: column tracking of the catalogue listing (C19: computations next to / inside asserts) -----------------
+add({"name": "colstream_tab", "file": "dfs/cmd_cat.cc", "anchor": r"void tab\(\)",
+     "sig": "static void colstream_tab(struct colstream *self)",
+     "pre": "#define col_ (self->col_)\n#define TAB_WIDTH 8\n", "post": "#undef col_\n#undef TAB_WIDTH\n",
+     "rules": [(r"\bauto\b", "size_t", ">=0"), (r"\bassert\(", "VERIF_ASSERT(", ">=0")]})
+add({"name": "colstream_update_col", "file": "dfs/cmd_cat.cc", "anchor": r"void update_col\(char ch\)",
+     "sig": "static void colstream_update_col(struct colstream *self, char ch)",
+     "pre": "#define col_ (self->col_)\n", "post": "#undef col_\n",
+     "rules": [(r"\btab\(\);", "colstream_tab(self);", ">=0"), (r"\bassert\(", "VERIF_ASSERT(", ">=0")]})
+
+# DecompressedFile::read (C10 i/ii: the FileAccess the rest of the program sees for a .gz image): the `fail` lambda and the
+# statements after it, as two functions
+add({"name": "gz_read_fail", "file": "dfs/img_gzfile.cc",
+     "anchor": r"auto fail = \[this\]\(\) -> std::vector<DFS::byte>",
+     "sig": "static struct gzvec gz_read_fail(struct DecompressedFile *self)",
+     "rules": [(r"\berrno\b", "g_errno", ">=1"),
+               (r"throw FileIOError\(name_, g_errno\);", "{ VERIF_THROW(Other, 0); return gzvec_empty(); }", ">=0"),
+               (r"return std::vector<DFS::byte>\(\);", "return gzvec_empty();", ">=0")]})
+add({"name": "DecompressedFile_read", "file": "dfs/img_gzfile.cc",
+     "anchor": r"errno = 0;\s*if \(0 != fseek\(f_, pos, SEEK_SET\)\)",
+     "region_end": r"\n  \}\s*\n\s*\}  // namespace",
+     "sig": "static struct gzvec DecompressedFile_read(struct DecompressedFile *self, unsigned long pos, unsigned long len)",
+     "pre": "#define f_ (self->f_)\n", "post": "#undef f_\n",
+     "rules": [(r"\berrno\b", "g_errno", ">=1"),
+               (r"\bfseek\(", "gzt_fseek(", 1),
+               (r"return fail\(\);", "return gz_read_fail(self);", ">=1"),
+               (r"std::vector<DFS::byte> buf;", "struct gzvec buf = gzvec_empty();", 1),
+               (r"buf\.resize\(([^;]*)\);", r"gzvec_resize(&buf, \1);", ">=1"),
+               (r"\bfread\(buf\.data\(\),\s*([^;]*?),\s*buf\.size\(\),\s*f_\)", r"gzt_fread(&buf, \1, buf.n, f_)", 1)]})
+
 # ---- img_hfe.cc / img_hxcmfm.cc (C05/C06 image-level clause): sector lookup of the flux adapters, PicTrack -------------
 COPY256 = (r"std::copy\((\w+)(?:->|\.)data\.begin\(\), \1(?:->|\.)data\.end\(\), buf\.begin\(\)\);", r"flux_sector_copy(FLUXSEC(\1), &buf);")
 RET_BUF = (r"return buf;", "{ opt_SectorBuffer some_; some_.has = 1; some_.val = buf; return some_; }")
